@@ -167,9 +167,13 @@ def run(eng: Engine, ck: Check):
         en, cn = c.nodes_for(em[0])[0], c.nodes_for(clr[0])[0]
         ck.ob('R-C16-DESTROY', oc, clr[0], 'the session field is cleared before the destroyed-event is emitted (a re-entrant CLOSED sees no session: exactly once)',
               cn in c.dominators()[en], 'emit is not dominated by the clearing store', construct='clear before emit')
-        gs = [(unparse(e), pol) for e, pol, _ in eng.guards_at(oc, em[0])]
-        ok = any('isinstance(event.connection, ServerConnection)' in g and p for g, p in gs) and any('CLOSED' in g and p for g, p in gs) and \
-            any('self.session' in g and p for g, p in gs)
+        egs = expanded_guards(eng, oc, em[0])
+        gs = [(unparse(e), pol) for e, pol, _ in egs]
+        evp = [p_ for p_ in oc.params if p_ != 'self'][0]
+        ok = any(isinstance(e, ast.Call) and call_name(e) == 'isinstance' and mentions_name(e, 'ServerConnection') and mentions_name(e, evp) and p for e, p, _ in egs) and \
+            any(state_guard(e, p, 'state', {'CLOSED'}) is True for e, p, _ in egs) and \
+            any(mentions_attr(e, 'session') and p and not isinstance(e, ast.Compare) or
+                (p is False and (cmp_atom(e) or ('',))[0] == 'is' and mentions_attr(e, 'session') and is_none_const(cmp_atom(e)[2])) for e, p, _ in egs)
         ck.ob('R-C16-DESTROY', oc, em[0], 'destroyed iff the server connection reports CLOSED and a session exists', ok and len(gs) == 3, f'{gs}', construct='destroy condition')
         evs = [y for y in ast.walk(em[0]) if isinstance(y, ast.Name)]
         ck.ob('R-C16-DESTROY', oc, em[0], 'SessionDestroyedEvent is the event emitted', 'SessionDestroyedEvent' in unparse(expand_aliases(oc, em[0].args[0])), '',
@@ -238,7 +242,7 @@ def run(eng: Engine, ck: Check):
         gs = [(unparse(e), pol) for e, pol, _ in eng.guards_at(osr, x)]
         ck.ob('R-C16-RECONNECT', osr, x, 'after a reconnect the client logs in again iff reconnect.auto', gs == [('self.settings.network.server.reconnect.auto', True)], f'{gs}',
               construct='relogin')
-    ck.floor('R-C16-RECONNECT', len(stops), 2)
+    ck.floor('R-C16-RECONNECT', len(stops), 1)
 
     # ---- R-C16-TASKS
     tasks_rule(eng, ck)
